@@ -217,6 +217,9 @@ class World:
             return [refmodel.rp_of_point(p) for p in r]
         if k == "len":
             return len(db)
+        if k == "read_storm":
+            # two dozen distinct (hashable) queries in a row: enough to wrap any small query cache
+            return [db.count(qast.build(a)) for a in STORM]
         if k in FAULT_OPS:
             return self._do_fault(op)
         if k == "getter":
@@ -355,7 +358,8 @@ def _norm_name(n):
     return _TMPNAME.sub("tmp<random>", n)
 
 
-READ_OPS = ("count", "get", "contains", "search", "search_unsorted", "len", "getter", "select")
+READ_OPS = ("count", "get", "contains", "search", "search_unsorted", "len", "getter", "select", "read_storm")
+STORM = [("cmp", "tags", ("i",), "==", str(k)) for k in range(12)] + [("cmp", "fields", ("w",), "==", k) for k in range(12)]
 NONMUTATING = READ_OPS + ("reindex", "reopen", "handle")
 
 # Calls that must raise:
@@ -423,6 +427,8 @@ def ref_apply(op, contents, alpha, now=common.CLOCK_START):
         return C, ("ret", refmodel.search(C, op[1], op[2], False))
     if k == "len":
         return C, ("ret", len(C))
+    if k == "read_storm":
+        return C, ("ret", [len(refmodel.select(C, refmodel.q_pred(a), None)) for a in STORM])
     if k == "bad_insert_multiple":
         _, pnames, pos, wid, via = op
         m = None if via == "db" else via[2:]
